@@ -24,8 +24,11 @@ check("C03", "model_checking",
       "Same model and bubbles as C02, validated against the Cap and Eager clauses: in-flight (targeter calls minus results taken) never "
       "exceeds max-workers at any settled instant (one-event slack between), and a released hit whose wait is over has started unless all "
       "capacity is busy; scripts biased to slow transports/consumers and initial workers below/at/above the maximum. The runs of the exported "
-      "scripts are additionally validated against Attack.tla itself (internal actions as silent steps): a mismatch is reported as model drift. The command-line anchor is covered end to end: AttackCmd.tla states what the attack command's flags mean for the requests an in-process loopback server sees and for the results written; TLC exports its cases and every real run is validated against it.",
-      ATTACK_NOTE, ATTACK_TECH, "DESIGN.md section 5 (C03), Appendix A")
+      "scripts are additionally validated against Attack.tla itself (internal actions as silent steps): a mismatch is reported as model drift. The command-line anchor is covered end to end: AttackCmd.tla states what the attack command's flags mean for the requests an in-process loopback server sees and for the results written; TLC exports its cases and every real run is validated against it. "
+      "The worker accounting is also proved for EVERY bound and initial count: WorkerPool.tla (a counting abstraction) has an inductive invariant "
+      "implying busy <= max-workers and 'the loop blocks with nobody to take the tick only when all permitted workers are busy', discharged by "
+      "Apalache over unbounded integers, and TLC checks that Attack.tla refines WorkerPool.tla.",
+      ATTACK_NOTE, ATTACK_TECH + "; Apalache inductive invariant (unbounded parameters) + TLC refinement check", "DESIGN.md section 5 (C03), Appendix A, section 12.6")
 check("C04", "model_checking",
       "Same model and bubbles, validated against PaceArgs (hits = 0,1,2,.., elapsed exact and non-decreasing), ObeyWait (no start before the "
       "wait returned for it), Deadline (never consulted after the duration), PacerStop and Ends; adversarial scripted pacers and durations; plus "
